@@ -81,3 +81,40 @@ Definition range_ok (n : Z) (r : option Z) : bool :=
     match r with Some z => (0 <=? z) && (z <? n) | None => false end
   else true.
 Definition both_sides_ok (srv gw : option Z) : bool := opt_eqb Z.eqb srv gw.
+
+(* ---- gateway side: "a gateway addresses an upstream's requests to the server it knows as
+   leader of that shard".  What it knows = the announcements it received: the shard count of the
+   latest one, and for each shard the leader named by the latest announcement that lists the
+   shard (within one announcement the last entry for a shard counts).  The checker reads only
+   the announcements served to the gateway and the server each ClientFor call addressed. ---- *)
+Fixpoint last_in (sh : Z) (a : list (Z * string)) (found : option string) : option string :=
+  match a with
+  | [] => found
+  | (k, l) :: r => last_in sh r (if sh =? k then Some l else found)
+  end.
+(* anns: the announcements received so far, newest first *)
+Fixpoint known_leader (sh : Z) (anns : list (list (Z * string))) : option string :=
+  match anns with
+  | [] => None
+  | a :: r => match last_in sh a None with
+              | Some l => Some l
+              | None => known_leader sh r
+              end
+  end.
+
+Definition addressed_ok (n : Z) (anns : list (list (Z * string))) (u : string) (r : gwres) : bool :=
+  if (1 <=? n) && (n <? two32) then
+    match known_leader (fnv32a (bytes_of u) mod n) anns with
+    | Some l => gwres_eqb r (GTo l)
+    | None => gwres_eqb r GErr
+    end
+  else if n =? 0 then gwres_eqb r GErr      (* no announcement yet: nobody may be addressed *)
+  else true.
+
+Fixpoint gw_hist_ok (n : Z) (anns : list (list (Z * string))) (l : list (gwop * gwres)) : bool :=
+  match l with
+  | [] => true
+  | (GSync n' eps, _) :: r => gw_hist_ok n' (eps :: anns) r
+  | (GSyncFail, _) :: r => gw_hist_ok n anns r
+  | (GClientFor u, x) :: r => (addressed_ok n anns u x && gw_hist_ok n anns r)%bool
+  end.
